@@ -182,13 +182,28 @@ def cquery(q):
     raise ValueError(q)
 
 
-def real_query(tf, q):
+def real_query(tf, q, builders=None):
+    """builders: a cache of query BUILDER objects (TagQuery(), TagQuery().a, ...) shared by all queries built with it, the way a caller keeps
+    `tags = TagQuery()` in a variable and derives many queries from it; deriving a query must not change what an earlier one means"""
     import operator as op
     k = q[0]
     if k == "S":
-        base = {"time": tf.TimeQuery, "meas": tf.MeasurementQuery, "tags": tf.TagQuery, "fields": tf.FieldQuery}[q[1]]()
-        for part in q[2]:
-            base = base[part[1]] if part[0] == "k" else base.map(twins.MAPS[part[1]])
+        cls = {"time": tf.TimeQuery, "meas": tf.MeasurementQuery, "tags": tf.TagQuery, "fields": tf.FieldQuery}[q[1]]
+        if builders is None:
+            base = cls()
+            for part in q[2]:
+                base = base[part[1]] if part[0] == "k" else base.map(twins.MAPS[part[1]])
+        else:
+            key = (q[1],)
+            base = builders.get(key)
+            if base is None:
+                base = builders[key] = cls()
+            for part in q[2]:
+                key = key + ((part[0], part[1]),)
+                nxt = builders.get(key)
+                if nxt is None:
+                    nxt = builders[key] = base[part[1]] if part[0] == "k" else base.map(twins.MAPS[part[1]])
+                base = nxt
         t = q[3]
         if t[0] == "cmp":
             f = {"==": op.eq, "!=": op.ne, "<": op.lt, "<=": op.le, ">": op.gt, ">=": op.ge}[t[1]]
@@ -205,11 +220,11 @@ def real_query(tf, q):
     if k == "noop":
         return {"time": tf.TimeQuery, "meas": tf.MeasurementQuery, "tags": tf.TagQuery, "fields": tf.FieldQuery}[q[1]]().noop()
     if k == "and":
-        return real_query(tf, q[1]) & real_query(tf, q[2])
+        return real_query(tf, q[1], builders) & real_query(tf, q[2], builders)
     if k == "or":
-        return real_query(tf, q[1]) | real_query(tf, q[2])
+        return real_query(tf, q[1], builders) | real_query(tf, q[2], builders)
     if k == "not":
-        return ~real_query(tf, q[1])
+        return ~real_query(tf, q[1], builders)
     raise ValueError(q)
 
 
